@@ -493,6 +493,9 @@ SERVERS = {
     'mixed': dict(kex=('curve25519-sha256', 'diffie-hellman-group14-sha1'), key=('ssh-ed25519',), enc=('aes256-ctr', '3des-cbc'), mac=('hmac-sha2-256', 'hmac-md5')),
     'clean': dict(kex=('sntrup761x25519-sha512@openssh.com',), key=('ssh-ed25519',), enc=('aes256-gcm@openssh.com',), mac=('hmac-sha2-256-etm@openssh.com',)),
     'warnonly': dict(kex=('curve25519-sha256',), key=('ssh-ed25519',), enc=('aes256-ctr',), mac=('hmac-sha2-256',)),
+    # names with characters that mean something to formatting code: % sequences, braces, backslashes (RFC 4251 allows every printable character but the comma)
+    'percent': dict(kex=('curve25519-sha256', 'zz%s-kex@example.org', '100%'), key=('ssh-ed25519', 'key-%d{0}@example.org'), enc=('aes256-ctr', 'aes%(x)s-ctr', 'c\\n-cipher'),
+                    mac=('hmac-sha2-256', 'mac-%-5d@example.org', '{}-mac')),
     'unknown': dict(kex=('curve25519-sha256', 'zz-newkex@example.org'), key=('ssh-ed25519',), enc=('aes256-ctr', 'zz-newcipher@example.org', 'yy-cipher2'),
                     mac=('hmac-sha2-512-etm@openssh.com', 'xx-mac@example.org'), banner=b'SSH-2.0-dropbear_2022.83'),
     # every place where a collection of names is joined into one line of text: the strict-KEX advisory (several ciphers and MACs), the RSA family, several unknown names
@@ -840,7 +843,7 @@ def run(ctx):
                 flush_chunk()
         flush_chunk()
         # ---- (3) main() over scripted peers: stdout with the verbose messages, the final write, the error path
-        cases = [('mixed', None), ('warnonly', None), ('unknown', None), ('mixed', 'no_kexinit')]
+        cases = [('mixed', None), ('warnonly', None), ('unknown', None), ('mixed', 'no_kexinit'), ('percent', None)]
         if ctx.tier == 'thorough':
             cases += [('clean', None), ('clean', 'no_kexinit')]
         lines, exp = [], []
@@ -873,6 +876,16 @@ def run(ctx):
                 exp.append((code, text, o, sname, fault))
             for f in oracle_main(runs, sname, fault):
                 failures.append(f)
+            # debug output (-d) is presentation too: same exit status, same report lines (seed C15-9: diagnostic text used as a format string)
+            rep_lines = lambda t: [l for l in t.split('\n') if l[:1] in ('(', '#') or l.startswith(' ' * 10 + '`- ')]
+            for dargs in (['-n', '-d'], ['-n', '-v', '-d'], ['-n', '-d', '-b']):
+                code_d, text_d, _, _ = run_main_captured(sname, dargs, fault)
+                cov.add(('main-debug', sname, fault, tuple(dargs)), True, tags=['main()', 'debug'])
+                ref = run_main_captured(sname, [a for a in dargs if a != '-d'], fault)
+                if code_d != ref[0] or rep_lines(text_d) != rep_lines(ref[1]):
+                    failures.append({'sig': {'kind': 'debug_changes_status_or_findings'}, 'input': {'what': 'main()', 'server': sname, 'fault': fault, 'args': dargs},
+                                     'observed': {'exit': code_d, 'report_lines_only_without_-d': [l for l in rep_lines(ref[1]) if l not in rep_lines(text_d)][:4], 'stdout_tail': text_d[-200:]},
+                                     'expected': {'exit': ref[0], 'the same report lines': True}, 'how': 'harness/props/C15.py: real main() with and without -d'})
         if ctx.driver_ok:
             for line, m, (code, text, o, sname, fault) in zip(lines, ctx.driver(lines), exp):
                 corr += 1
